@@ -120,6 +120,8 @@ macro_rules! combine_impls {
                 fn combine(self) -> Source<Self::Output> {
                     #[cfg(feature = "verif")]
                     use crate::verif::{ArcSwap, ArcSwapOption, AtomicUsize};
+                    #[cfg(feature = "verif")]
+                    use crate::verif::AtomicBool;
                     #[cfg(feature = "tracing")]
                     let combine_fn_span = Span::current();
                     $(
